@@ -204,7 +204,28 @@ func (g *Gen) leafContexts() {
 	}
 }
 
+// likeSequences: the same pattern text under like and ilike, one after the other, on data where the case
+// rule decides: neither may inherit anything from the other (the full treatment is C18's)
+func (g *Gen) likeSequences() {
+	for rep := 0; rep < g.pick(12, 120); rep++ {
+		g.begin("like sequences")
+		vals := []*BS{bsp("abc"), bsp("ABC"), bsp("aXc"), nil, bsp("xabcx"), bsp("Abc")}
+		f := g.do(Step{Op: "New", Recv: -1, HasOrder: true, ColOrder: bsList([]string{"S", "X"}), HasEnums: true, Enums: []EnumDecl{{Name: toBS("X"), Vals: nil}},
+			Data: []ColData{{Name: toBS("S"), Kind: "string", Strs: vals}, {Name: toBS("X"), Kind: "string", Strs: vals}}})
+		pat := g.oneOf([]string{"a.c", "%A[bx]C%", "A.C%", "%b.", "a.1", ".*bc", "(abc|ABC)"}) + g.oneOf([]string{"", "", "%"})
+		seq := [][]string{{"like", "ilike", "like"}, {"ilike", "like", "ilike"}}[rep%2]
+		for _, c := range seq {
+			for _, col := range []string{"S", "X"} {
+				cl := Clause{K: "leaf", Col: toBS(col), CmpK: "str", Cmp: c, Arg: &Val{T: "string", S: toBS(pat)}, Inv: g.rng.Intn(5) == 0}
+				g.do(Step{Op: "Filter", Recv: f, Clause: &cl})
+			}
+		}
+		g.end()
+	}
+}
+
 func genC02(g *Gen) {
+	g.likeSequences()
 	g.leafContexts()
 	cat := leafCatalogue()
 	g.arrangedFrames("filter arranged", func(f int) {
@@ -213,6 +234,17 @@ func genC02(g *Gen) {
 			if g.rng.Intn(5) == 0 {
 				cl = Clause{K: "not", Subs: []Clause{cl}}
 			}
+			g.do(Step{Op: "Filter", Recv: f, Clause: &cl})
+		}
+		// composite sub clauses: the partial results are merged row by row (orFrames, Not's complement)
+		for k := 0; k < 6; k++ {
+			a, b, c := cat[g.rng.Intn(len(cat))], cat[g.rng.Intn(len(cat))], cat[g.rng.Intn(len(cat))]
+			cl := []Clause{
+				{K: "or", Subs: []Clause{{K: "and", Subs: []Clause{a}}, {K: "and", Subs: []Clause{b}}}},
+				{K: "or", Subs: []Clause{{K: "and", Subs: []Clause{a, b}}, {K: "not", Subs: []Clause{{K: "and", Subs: []Clause{c}}}}}},
+				{K: "not", Subs: []Clause{{K: "or", Subs: []Clause{{K: "and", Subs: []Clause{a}}, b}}}},
+				{K: "and", Subs: []Clause{{K: "or", Subs: []Clause{a, {K: "and", Subs: []Clause{b}}}}, {K: "or", Subs: []Clause{{K: "null"}, c}}}},
+			}[k%4]
 			g.do(Step{Op: "Filter", Recv: f, Clause: &cl})
 		}
 	})
